@@ -4,6 +4,7 @@ use serde_json::Value;
 
 use crate::report::{CheckInfo, Partial, Tier, Violation};
 
+pub mod c07;
 pub mod c08;
 pub mod c09;
 pub mod c10;
@@ -27,6 +28,7 @@ pub fn all() -> Vec<CheckDef> {
     vec![
         srvchecks::def_c03(),
         srvchecks::def_c04(),
+        c07::def(),
         c08::def(),
         c09::def(),
         c10::def(),
